@@ -144,6 +144,10 @@ class C17(core.Prop):
         fr = cx.gen_frame(rng, fams=FAMS, maxrows=10, maxcols=3)
         vflags = [t for t in gen_argv(rng, 'verify', files=()) if t not in UNKNOWN]
         dflags = [t for t in gen_argv(rng, 'detect', files=()) if t not in UNKNOWN]
+        if rng.random() < 0.15 and fr['nrows']:
+            # texts that a CSV reader with its own defaults would take for missing values
+            fr['cols'].append({'name': 'tok%d' % len(fr['cols']), 'fam': 'object-str',
+                               'cells': [rng.choice(['NA', 'null', 'None', 'n/a', 'x', 'NaN']) for _ in range(fr['nrows'])]})
         if rng.random() < 0.35 and '--index' not in dflags:
             dflags = dflags + ['--index']           # (a row-number column in the output file)
         if rng.random() < 0.2 and not any(t in vflags for t in ('--epsilon', '-epsilon')):
@@ -376,8 +380,25 @@ class C17(core.Prop):
                 elif out != str(lv) + '\n':
                     fail('verify-differs', 'printed report differs from str(verify_df(...)) with the same keywords (flags %s)'
                          % case['vflags'], 'verify-differs:report')
+            # --- verify from standard input: the same counts as from the file
+            if ext == 'csv':
+                # (with constraints written by hand on the number of nulls: text columns read from a file get none by discovery)
+                with open('c_nulls.tdda', 'w') as f_:
+                    json.dump({'fields': {c_['name']: {'max_nulls': 0} for c_ in case['frame']['cols']
+                                          if not any(x_ is None for x_ in c_['cells'])}}, f_)
+                for path, cfile in [(p, 'c.tdda') for p in (inp2, inp) if p][:1] + [(inp, 'c_nulls.tdda')]:
+                    rc_f, _, _, v_f = self._cli(['verify', path, cfile])
+                    rc_s, _, e_s, v_s = self._cli(['verify', '-', cfile], stdin=open(path, encoding='utf-8').read())
+                    if rc_f == 0 and v_f is not None:
+                        if rc_s != 0 or v_s is None:
+                            fail('verify-fails', 'verify from standard input exits %r: %s' % (rc_s, e_s[-150:]), 'verify-fails:stdin')
+                        elif (v_s.passes, v_s.failures) != (v_f.passes, v_f.failures):
+                            fail('verify-differs', 'from standard input %s / %s, from the file %s / %s'
+                                 % (v_s.passes, v_s.failures, v_f.passes, v_f.failures), 'verify-differs:stdin')
             # --- detect
             dkw = self._kw('detect', case['dflags'])
+            if dkw is not None and 'report' in dkw:
+                dkw['report'] = 'records'      # (the documented meaning, not read through the translation under test: detection reports records)
             for path in [p for p in (inp2, inp) if p]:
                 if dkw is None:
                     break
@@ -406,6 +427,9 @@ class C17(core.Prop):
                     continue
                 if (v.passes, v.failures) != (lv.passes, lv.failures):
                     fail('detect-differs', 'counts differ', 'detect-differs:counts')
+                elif out != str(lv) + '\n':
+                    fail('detect-differs', 'printed summary differs from str(detect_df(...)) with the same keywords (flags %s): %r / %r'
+                         % (case['dflags'], out[-160:], str(lv)[-160:]), 'detect-differs:report')
                 if os.path.exists(o1) != os.path.exists(o2):
                     fail('detect-differs', 'output file written by one of command line / library only', 'detect-differs:file-presence')
                 elif os.path.exists(o1):
